@@ -170,7 +170,7 @@ pub struct Searcher<'a> {
     #[cfg(unix)]
     visited_inodes: HashSet<u64>,
     lscolors: LsColors,
-    dir_queue: Box<VecDeque<PathBuf>>,
+    dir_queue: Box<VecDeque<(PathBuf, u32)>>,
     current_follow_symlinks: bool,
 
     fms: FileMetadataState,
@@ -383,7 +383,7 @@ impl<'a> Searcher<'a> {
                 root_dir,
                 min_depth,
                 max_depth,
-                0,
+                1,
                 search_archives,
                 apply_gitignore,
                 #[cfg(feature = "git")]
@@ -583,7 +583,7 @@ impl<'a> Searcher<'a> {
         dir: &Path,
         min_depth: u32,
         max_depth: u32,
-        root_depth: u32,
+        depth: u32,
         search_archives: bool,
         apply_gitignore: bool,
         #[cfg(feature = "git")]
@@ -593,15 +593,6 @@ impl<'a> Searcher<'a> {
         traversal_mode: TraversalMode,
         process_queue: bool,
     ) -> io::Result<()> {
-        // Prevents infinite loops when following symlinks
-        if self.current_follow_symlinks {
-            if self.visited_dirs.contains(&dir.to_path_buf()) {
-                return Ok(());
-            } else {
-                self.visited_dirs.insert(dir.to_path_buf());
-            }
-        }
-
         // Canonicalize the path to resolve symlinks and relative paths
         let canonical_path = crate::util::canonical_path(&dir.to_path_buf());
         if canonical_path.is_err() {
@@ -615,15 +606,13 @@ impl<'a> Searcher<'a> {
             return Ok(());
         }
 
-        let canonical_path = canonical_path.unwrap();
-        let canonical_depth = crate::util::calc_depth(&canonical_path);
-
-        let base_depth = match root_depth {
-            0 => canonical_depth,
-            _ => root_depth,
-        };
-
-        let depth = canonical_depth - base_depth + 1;
+        // Prevents infinite loops when following symlinks: every real directory is
+        // traversed once, whichever way it is reached
+        if self.current_follow_symlinks
+            && !self.visited_dirs.insert(PathBuf::from(canonical_path.unwrap()))
+        {
+            return Ok(());
+        }
 
         // Read the directory and process each entry
         match fs::read_dir(dir) {
@@ -636,7 +625,7 @@ impl<'a> Searcher<'a> {
 
                     match entry {
                         Ok(entry) => {
-                            let mut path = entry.path();
+                            let path = entry.path();
                             let pass_ignores = if apply_gitignore || apply_hgignore || apply_dockerignore {
                                 let mut canonical_path = path.clone();
 
@@ -713,9 +702,12 @@ impl<'a> Searcher<'a> {
                                         let mut ok = false;
 
                                         if file_type.is_symlink() {
-                                            if let Ok(resolved) = std::fs::read_link(&path) {
-                                                ok = true;
-                                                path = resolved;
+                                            // a link is followed through its own path, and
+                                            // only if it leads to a directory
+                                            if self.current_follow_symlinks {
+                                                if let Ok(target) = fs::metadata(&path) {
+                                                    ok = target.is_dir();
+                                                }
                                             }
                                         } else if file_type.is_dir() {
                                             ok = true;
@@ -738,7 +730,7 @@ impl<'a> Searcher<'a> {
                                                     &path,
                                                     min_depth,
                                                     max_depth,
-                                                    base_depth,
+                                                    depth + 1,
                                                     search_archives,
                                                     apply_gitignore,
                                                     #[cfg(feature = "git")]
@@ -757,7 +749,7 @@ impl<'a> Searcher<'a> {
                                                     );
                                                 }
                                             } else {
-                                                self.dir_queue.push_back(path);
+                                                self.dir_queue.push_back((path, depth + 1));
                                             }
                                         }
                                     } else {
@@ -782,7 +774,7 @@ impl<'a> Searcher<'a> {
 
         if traversal_mode == Bfs && process_queue {
             while !self.dir_queue.is_empty() {
-                let path = self.dir_queue.pop_front().unwrap();
+                let (path, depth) = self.dir_queue.pop_front().unwrap();
                 #[cfg(feature = "git")]
                 let repo;
                 #[cfg(feature = "git")]
@@ -798,7 +790,7 @@ impl<'a> Searcher<'a> {
                     &path,
                     min_depth,
                     max_depth,
-                    base_depth,
+                    depth,
                     search_archives,
                     apply_gitignore,
                     #[cfg(feature = "git")]
